@@ -36,7 +36,7 @@ def harnesses_for(pid, tier, role=None):
     return out
 
 
-def make_copy(repo, scratch, files):
+def make_copy(repo, scratch, files, with_tests=False):
     dst = os.path.join(scratch, 'kani-crate')
     if os.path.exists(dst):
         shutil.rmtree(dst)
@@ -45,7 +45,7 @@ def make_copy(repo, scratch, files):
     if os.path.exists(os.path.join(repo, 'Cargo.lock')):
         shutil.copy(os.path.join(repo, 'Cargo.lock'), dst)
     shutil.copytree(os.path.join(repo, 'src'), os.path.join(dst, 'src'),
-                    ignore=lambda d, names: [n for n in names if n == 'tests.rs'])
+                    ignore=lambda d, names: [n for n in names if n == 'tests.rs' and not with_tests])
     os.makedirs(os.path.join(dst, '.cargo'))
     open(os.path.join(dst, '.cargo', 'config.toml'), 'w').write('[net]\noffline = true\n')
     for f in sorted(set(files)):
@@ -87,11 +87,52 @@ def run_harnesses(pid, hs, repo, scratch, say, extra_args=(), timeout=900):
     for h in hs:
         st, detail = per.get(h['name'], ('error', out[-1500:]))
         tm = re.search(r'Verification Time: ([0-9.]+)s', detail)
-        res.append({'name': h['name'], 'role': h['role'], 'status': st, 'bound': h.get('bound', ''),
+        res.append({'name': h['name'], 'role': h['role'], 'about': h.get('about', 'property'), 'status': st, 'bound': h.get('bound', ''),
                     'wall_s': float(tm.group(1)) if tm else round(wall, 1), 'detail': detail[-3000:]})
     say(pid, 'kani: %s  (%.1f s)' % (', '.join('%s=%s' % (r['name'], r['status']) for r in res), wall))
     shutil.rmtree(os.path.join(scratch, 'kani-target'), ignore_errors=True)
     return res
+
+
+def playback(h, repo, scratch, say, timeout=900):
+    """the verifier's counterexample: re-run a failed harness with Kani's concrete playback and return the generated unit test"""
+    dst = make_copy(repo, scratch, [h['file']])
+    env = dict(os.environ, CARGO_NET_OFFLINE='true', CARGO_TARGET_DIR=os.path.join(scratch, 'kani-target'))
+    cmd = ['cargo', 'kani', '-Z', 'function-contracts', '-Z', 'concrete-playback', '--concrete-playback=print', '--harness', h['name']]
+    try:
+        p = subprocess.run(cmd, cwd=dst, env=env, stdout=subprocess.PIPE, stderr=subprocess.STDOUT, text=True, timeout=timeout)
+        out = p.stdout
+    except subprocess.TimeoutExpired:
+        return None
+    finally:
+        shutil.rmtree(os.path.join(scratch, 'kani-target'), ignore_errors=True)
+    m = re.search(r'```\n(.*?)```', out, re.S)
+    if not m:
+        return None
+    code = m.group(1)
+    nm = re.search(r'fn (kani_concrete_playback_\w+)\(', code)
+    if not nm:
+        return None
+    return {'search': 'kani-playback', 'harness': h['name'], 'file': h['file'], 'test_name': nm.group(1), 'test': code,
+            'observed': 'Kani/CBMC counterexample for harness %s (concrete playback unit test)' % h['name']}
+
+
+def replay_playback(w, repo, scratch):
+    """execute Kani's concrete playback unit test against the real code (native execution); True if the harness assertion fails"""
+    dst = make_copy(repo, scratch, [w['file']], with_tests=True)
+    txt = open(os.path.join(VERIF, w['file'])).read()
+    target = os.path.join(dst, re.match(r'// @append-to: (\S+)', txt).group(1))
+    s = open(target).read().rstrip()
+    assert s.endswith('}')
+    body = '\n'.join('    ' + l for l in w['test'].split('\n'))
+    open(target, 'w').write(s[:-1] + body + '\n}\n')
+    env = dict(os.environ, CARGO_NET_OFFLINE='true', CARGO_TARGET_DIR=os.path.join(scratch, 'kani-target'))
+    p = subprocess.run(['cargo', 'kani', 'playback', '-Z', 'concrete-playback', '--', w['test_name']], cwd=dst, env=env,
+                       stdout=subprocess.PIPE, stderr=subprocess.STDOUT, text=True, timeout=1200)
+    shutil.rmtree(os.path.join(scratch, 'kani-target'), ignore_errors=True)
+    out = p.stdout
+    tail = '\n'.join(l for l in out.split('\n') if 'panicked' in l or 'assertion' in l or l.startswith('test result') or 'Failed Checks' in l)[-1500:]
+    return ('test result: FAILED' in out and w['test_name'] in out), tail
 
 
 def standins_for(pid):
